@@ -147,8 +147,18 @@ def lean_audit(prop_id, module=None, extra_modules=()):
     module = module or ("StreamzVerif.Props." + prop_id)
     props_file = os.path.join(LEAN_DIR, *module.split(".")) + ".lean"
     names = theorems_of(props_file)
+    plain_extra = []
     for m in extra_modules:
-        names += theorems_of(os.path.join(LEAN_DIR, *m.split(".")) + ".lean")
+        # an extra module may be given as (module, prefix): only its theorems named <prefix>... serve this property
+        prefix = None
+        if isinstance(m, (tuple, list)):
+            m, prefix = m
+        plain_extra.append(m)
+        found_names = theorems_of(os.path.join(LEAN_DIR, *m.split(".")) + ".lean")
+        if prefix:
+            found_names = [n for n in found_names if n.split(".")[-1].startswith(prefix)]
+        names += found_names
+    extra_modules = plain_extra
     res["obligations"] = len(names)
     if not names:
         res["ok"] = False
